@@ -37,10 +37,15 @@ Definition sbytes (l : list N) : string := fold_right (fun n s => String (ascii_
 Definition rule p am dt m c s tg : csv_rule :=
   {| pat := p; amts := am; dates := dt; merchant := m; category := c; subcategory := s; tags := tg |}.
 Definition tx d a dt : txn := {| desc := d; amount := a; date := dt |}.
+(* money: exact doubles in units of 2^-64; U n = the integer n, D1_128 = 1/128 *)
+Definition U (n : Z) : Z := (n * UNIT)%Z.
+Definition D1_128 : Z := 144115188075855872%Z.
+Definition amt (o : aop) (v hi : Z) (txt hitxt : string) : acond :=
+  {| a_op := o; a_v := v; a_hi := hi; a_txt := txt; a_hi_txt := hitxt |}.
 
 (* [amount>3][date:last30days] renders as `... and amount > 3.0 and # Note: was last30days` *)
 Definition w_relative_syntax :=
-  rule "X" [{| a_op := AGt; a_v := 19200; a_hi := 0 |}]%Z [DRel 30] "R" "C" "S" [].
+  rule "X" [amt AGt (U 3) 0 "3.0" ""] [DRel 30] "R" "C" "S" [].
 (* [date:last30days] alone is silently dropped: the migrated rule matches every date *)
 Definition w_relative_dropped := rule "X" [] [DRel 30] "R" "C" "S" [].
 (* ... and takes every later modifier with it *)
@@ -70,15 +75,15 @@ Proof. vm_compute. reflexivity. Qed.
 Print Assumptions c14_refuted_blank_merchant_load_error.
 
 (* transaction of 2020-01-01 seen on 2026-10-01: outside the last 30 days, yet matched after migration *)
-Theorem c14_refuted_relative_date_dropped : fails_on [w_relative_dropped] (tx "X" 32000 737425).
+Theorem c14_refuted_relative_date_dropped : fails_on [w_relative_dropped] (tx "X" (U 5) 737425).
 Proof. refute_by x_tbl no_lx 739890%Z. destruct He as [He _]. discriminate. Qed.
 Print Assumptions c14_refuted_relative_date_dropped.
 (* 2025-07-01 seen on 2025-07-10: inside the window but not in March; the month modifier is lost too *)
-Theorem c14_refuted_relative_date_swallows_month : fails_on [w_relative_swallows_month] (tx "X" 32000 739433).
+Theorem c14_refuted_relative_date_swallows_month : fails_on [w_relative_swallows_month] (tx "X" (U 5) 739433).
 Proof. refute_by x_tbl no_lx 739442%Z. destruct He as [He _]. discriminate. Qed.
 Print Assumptions c14_refuted_relative_date_swallows_month.
 
-Theorem c14_refuted_comma_in_tag : fails_on [w_comma_tag] (tx "X" 32000 739252).
+Theorem c14_refuted_comma_in_tag : fails_on [w_comma_tag] (tx "X" (U 5) 739252).
 Proof.
   refute_by x_tbl no_lx 739890%Z. destruct He as [_ He]. specialize (He "a,b"). destruct He as [_ He].
   assert (F : "a" = "a,b" \/ "b" = "a,b" \/ "c" = "a,b" \/ False) by (apply He; left; reflexivity).
@@ -87,7 +92,7 @@ Qed.
 Print Assumptions c14_refuted_comma_in_tag.
 
 (* F1: legacy skips the rule (expression evaluation fails), the migrated rule matches *)
-Theorem c14_refuted_legacy_paren_pattern : fails_on [w_paren] (tx "UBER TRIP" 32000 739252).
+Theorem c14_refuted_legacy_paren_pattern : fails_on [w_paren] (tx "UBER TRIP" (U 5) 739252).
 Proof. refute_by [("(UBER|LYFT)", "UBER TRIP", Some true)] no_lx 739890%Z. destruct He as [He _]. discriminate. Qed.
 Print Assumptions c14_refuted_legacy_paren_pattern.
 
@@ -104,8 +109,8 @@ Theorem c14_case_law_is_needed :
   safe_rule w_scoped = true /\
   exists re, re_empty_law re /\
     ~ (exists ers, load_all [w_scoped] = LOk ers /\
-         res_equiv (engine_classify re ers (tx "UBER Eats" 32000 739252))
-                   (legacy_classify re no_lx 739890 [w_scoped] (tx "UBER Eats" 32000 739252))).
+         res_equiv (engine_classify re ers (tx "UBER Eats" (U 5) 739252))
+                   (legacy_classify re no_lx 739890 [w_scoped] (tx "UBER Eats" (U 5) 739252))).
 Proof.
   split; [vm_compute; reflexivity|].
   exists (fun p d => if String.eqb p "" then Some true
@@ -147,6 +152,25 @@ Theorem c14_quote_reads_back :
 Proof. exact quote_reads_back. Qed.
 Print Assumptions c14_quote_reads_back.
 
+(* the tolerance of [amount=N] is inside the model, decided on the exact values of the doubles: the rounded
+   difference is below the double 0.01 exactly when the exact difference does not exceed NEAR_MID, and BOTH paths
+   evaluate this same test, for every amount *)
+Theorem c14_amount_eq_same_test :
+  forall re t v, eval_atom re t (EAmtNear v) = Some (amt_ok t (amt AEq v 0 "" "")).
+Proof. reflexivity. Qed.
+Print Assumptions c14_amount_eq_same_test.
+Theorem c14_near_spec : forall a v, near a v = true <-> (Z.abs (a - v) <= NEAR_MID)%Z.
+Proof. intros a v. unfold near. apply Z.leb_le. Qed.
+Print Assumptions c14_near_spec.
+(* boundary: 0.01 - 0, 0.02 - 0.01 (both exactly the double 0.01) are NOT within tolerance, 10.01 - 10.0 IS;
+   history: the pre-fix rendering amount == N disagreed with the tolerance on 10.01 vs 10.0 *)
+Example c14_near_boundary :
+  near DOUBLE_CENT 0 = false /\ near 368934881474191040 DOUBLE_CENT = false /\ near 0 DOUBLE_CENT = false /\
+  near 184651908177832607744 (U 10) = true /\ Z.eqb 184651908177832607744 (U 10) = false /\
+  near (U 10 + D1_128) (U 10) = true /\ near (U 10 + 2 * D1_128) (U 10) = false /\
+  (NEAR_MID < U 1 / 100 < DOUBLE_CENT)%Z.
+Proof. vm_compute. repeat split; reflexivity. Qed.
+
 (* history (pre-fix converter, which wrote the pattern between the quotes unescaped): exactly which
    patterns would have survived that, i.e. which CSV files the escaping fix changes the migration of *)
 Theorem c14_unescape_id_iff : forall p, unesc p = UVal p <-> esc_free p = true.
@@ -164,12 +188,46 @@ Theorem c14_tags_roundtrip :
 Proof. exact tags_roundtrip. Qed.
 Print Assumptions c14_tags_roundtrip.
 
+(* ---- the generated lines, read back one line at a time as MerchantEngine.parse does (for ALL strings) -------- *)
+(* `[merchant]` is a rule header whatever the merchant text contains; its name is the stripped text *)
+Theorem c14_header_line_read_back :
+  forall in_rule m, classify_line in_rule ("[" ++ m ++ "]") = if nonempty (strip m) then KHeader (strip m) else KEmptyHeader.
+Proof. exact classify_header. Qed.
+Print Assumptions c14_header_line_read_back.
+(* `key: value` gives back exactly the stripped value: no `#`, `:`, `=`, bracket or quote in it is interpreted *)
+Theorem c14_property_line_read_back :
+  forall key v, key_ok key = true -> classify_line true (key ++ ": " ++ v) = KProp key (strip v).
+Proof. exact classify_prop. Qed.
+Print Assumptions c14_property_line_read_back.
+Theorem c14_block_lines_read_back :
+  forall r, noop_rule r = false ->
+  exists mline rest,
+    block_lines r = ("[" ++ merchant r ++ "]") :: mline :: ("category: " ++ category r) :: ("subcategory: " ++ subcategory r) :: rest /\
+    classify_line true ("[" ++ merchant r ++ "]")
+      = (if nonempty (strip (merchant r)) then KHeader (strip (merchant r)) else KEmptyHeader) /\
+    classify_line true mline = KProp "match" (strip (match_text r)) /\
+    classify_line true ("category: " ++ category r) = KProp "category" (strip (category r)) /\
+    classify_line true ("subcategory: " ++ subcategory r) = KProp "subcategory" (strip (subcategory r)) /\
+    (rest = [""] \/ exists tg, tags r = tg /\ tg <> [] /\ rest = [("tags: " ++ join ", " tg); ""] /\
+                    classify_line true ("tags: " ++ join ", " tg) = KProp "tags" (strip (join ", " tg))).
+Proof. exact block_lines_read_back. Qed.
+Print Assumptions c14_block_lines_read_back.
+Example c14_example_lines :
+  key_ok "category" = true /\ key_ok "subcategory" = true /\ key_ok "tags" = true /\ key_ok "match" = true /\
+  classify_line true "category: Unit #4" = KProp "category" "Unit #4" /\
+  classify_line true "tags: travel, #work" = KProp "tags" "travel, #work" /\
+  classify_line true "subcategory: A: B = [c]  " = KProp "subcategory" "A: B = [c]" /\
+  classify_line true "[In [brackets] here]" = KHeader "In [brackets] here" /\
+  classify_line true "[  ]" = KEmptyHeader /\ classify_line true "  # note" = KComment /\
+  classify_line true "no colon here" = KGarbage /\ classify_line false "x = amount > 5" = KTopLevel.
+Proof. vm_compute. repeat split; reflexivity. Qed.
+
 (* ---- the former witnesses of the repaired defects now migrate faithfully -------------------------------- *)
 Definition w_word_boundary := rule "\bUBER\b" [] [] "Uber" "Transport" "Ride" [].
 Definition w_backref := rule "A(\d)\1" [] [] "Rep" "C" "S" [].
 Definition w_quote := rule (sbytes [65; 34; 66]%N) [] [] "Q" "C" "S" [].
 Definition w_trailing_backslash := rule "END\" [] [] "E" "C" "S" [].
-Definition w_amount_eq := rule "X" [{| a_op := AEq; a_v := 64000; a_hi := 0 |}]%Z [] "E" "C" "S" [].
+Definition w_amount_eq := rule "X" [amt AEq (U 10) 0 "10.0" ""] [] "E" "C" "S" [].
 Definition w_padded_name := rule "NETFLIX" [] [] " Netflix" " Subs " "Stream" [].
 Definition w_blank_category := rule "X" [] [] "M" " " "S" [].
 
@@ -191,22 +249,27 @@ Example c14_fixed_amount_eq_and_padding :
   let rules := map loader_cells [w_amount_eq; w_padded_name] in
   let re := witness_re [("X", "X", Some true); ("NETFLIX", "NETFLIX", Some true)] in
   exists ers, load_all rules = LOk ers /\
-    r_cls (engine_classify re ers (tx "X" 64050 739252)) = Some ("E", "C", "S") /\
-    r_cls (legacy_classify re no_lx 739890 rules (tx "X" 64050 739252)) = Some ("E", "C", "S") /\
-    r_cls (engine_classify re ers (tx "X" 64064 739252)) = None /\
-    r_cls (legacy_classify re no_lx 739890 rules (tx "X" 64064 739252)) = None /\
-    r_cls (engine_classify re ers (tx "NETFLIX" 100 739252)) = Some ("Netflix", "Subs", "Stream") /\
-    r_cls (legacy_classify re no_lx 739890 rules (tx "NETFLIX" 100 739252)) = Some ("Netflix", "Subs", "Stream").
+    (* 10.0078125 *)
+    r_cls (engine_classify re ers (tx "X" (U 10 + D1_128) 739252)) = Some ("E", "C", "S") /\
+    r_cls (legacy_classify re no_lx 739890 rules (tx "X" (U 10 + D1_128) 739252)) = Some ("E", "C", "S") /\
+    (* the double 10.01: 10.01 - 10.0 evaluates to 0.00999999999999979 < 0.01 on BOTH paths now *)
+    r_cls (engine_classify re ers (tx "X" 184651908177832607744 739252)) = Some ("E", "C", "S") /\
+    r_cls (legacy_classify re no_lx 739890 rules (tx "X" 184651908177832607744 739252)) = Some ("E", "C", "S") /\
+    (* 10.015625 *)
+    r_cls (engine_classify re ers (tx "X" (U 10 + 2 * D1_128) 739252)) = None /\
+    r_cls (legacy_classify re no_lx 739890 rules (tx "X" (U 10 + 2 * D1_128) 739252)) = None /\
+    r_cls (engine_classify re ers (tx "NETFLIX" (U 1) 739252)) = Some ("Netflix", "Subs", "Stream") /\
+    r_cls (legacy_classify re no_lx 739890 rules (tx "NETFLIX" (U 1) 739252)) = Some ("Netflix", "Subs", "Stream").
 Proof. eexists. split; [vm_compute; reflexivity|]. vm_compute. repeat split; reflexivity. Qed.
 
 (* ---- non-vacuity: realistic rules satisfy the guard, load, and classify -------------------------------- *)
 Definition ex_rules : list csv_rule :=
-  [ rule "^AMZN\s*MKTP" [{| a_op := ARange; a_v := 320000; a_hi := 1280000 |}]%Z [] "Amazon" "Shopping" "Online" ["big"];
-    rule "\bCOSTCO\b(?!\s*GAS)" [{| a_op := AGt; a_v := 1280000; a_hi := 0 |}]%Z [DRange 739252 739616] " Costco" "Food" "Groceries" ["bulk"; "Warehouse"];
-    rule "STARBUCKS|DUNKIN" [{| a_op := AEq; a_v := 35250; a_hi := 0 |}]%Z [DMonth 3] "Coffee" "Food" "Coffee" [];
+  [ rule "^AMZN\s*MKTP" [amt ARange (U 50) (U 200) "50.0" "200.0"] [] "Amazon" "Shopping" "Online" ["big"];
+    rule "\bCOSTCO\b(?!\s*GAS)" [amt AGt (U 200) 0 "200.0" ""] [DRange 739252 739616] " Costco" "Food" "Groceries" ["bulk"; "Warehouse"];
+    rule "STARBUCKS|DUNKIN" [amt AEq (U 5 + 65 * D1_128) 0 "5.5078125" ""] [DMonth 3] "Coffee" "Food" "Coffee" [];
     rule "[0-9]{4}$" [] [DEq 739325] "Unused" "" "" [] ;
     rule "SQ \*[A-Z]+" [] [] "Square" "" "" ["pos"];
-    rule "" [{| a_op := ALe; a_v := 6400; a_hi := 0 |}]%Z [] "Small" "Misc" "" [] ].
+    rule "" [amt ALe (U 1) 0 "1.0" ""] [] "Small" "Misc" "" [] ].
 Definition ex_tbl :=
   [("\bCOSTCO\b(?!\s*GAS)", "COSTCO WHSE #12", Some true); ("^AMZN\s*MKTP", "COSTCO WHSE #12", Some false);
    ("STARBUCKS|DUNKIN", "COSTCO WHSE #12", Some false); ("SQ \*[A-Z]+", "COSTCO WHSE #12", Some false);
@@ -216,7 +279,7 @@ Example c14_example_guard : forallb safe_rule (map loader_cells ex_rules) = true
 Proof. vm_compute. reflexivity. Qed.
 
 Example c14_example_classification :
-  let t := tx "Costco Whse #12" 1600000 739300 in       (* 250.00 on 2025-02-18 *)
+  let t := tx "Costco Whse #12" (U 250) 739300 in       (* 250.00 on 2025-02-18 *)
   let rules := map loader_cells ex_rules in
   exists ers, load_all rules = LOk ers /\ length ers = 5%nat /\
     engine_classify (witness_re ex_tbl) ers t = legacy_classify (witness_re ex_tbl) no_lx 739890 rules t /\
